@@ -47,6 +47,11 @@ def gen_net(rng, ia_start: bool = False) -> dict:  # noqa: ANN001
     inhib = rng.random() < 0.4
     p = {"kin": round(rng.uniform(0.5, 2.0), 3), "k1": round(rng.uniform(0.5, 2.0), 3), "k2": round(rng.uniform(0.5, 2.0), 3), "a": a, "b": b}
     comps = [{"kind": "parameter", "name": k, "value": v} for k, v in p.items()]
+    derived_k1 = not ia_start and rng.random() < 0.4
+    if derived_k1:
+        # the rate constant of v1 is a derived parameter k1d = 0.7 k1 + 0.3 of the parameter k1 that the routines scan
+        comps.append({"kind": "derived", "name": "k1d", "fn": fl.ref(fl.lin1), "args": ["k1"]})
+        p["dk1"] = True
     if inhib:
         comps.append({"kind": "parameter", "name": "ni", "value": -1.0})
         p["ni"] = -1.0
@@ -61,20 +66,34 @@ def gen_net(rng, ia_start: bool = False) -> dict:  # noqa: ANN001
         comps += [{"kind": "variable", "name": v, "value": y0[v]} for v in ("x", "y")]
     comps.append({"kind": "reaction", "name": "vin", "fn": fl.ref(fl.pl0), "args": ["kin"], "stoich": {"x": 1}})
     if inhib:
-        comps.append({"kind": "reaction", "name": "v1", "fn": fl.ref(fl.pl2), "args": ["k1", "x", "a", "y", "ni"], "stoich": {"x": -1, "y": 1}})
+        comps.append({"kind": "reaction", "name": "v1", "fn": fl.ref(fl.pl2), "args": ["k1d" if derived_k1 else "k1", "x", "a", "y", "ni"], "stoich": {"x": -1, "y": 1}})
     else:
-        comps.append({"kind": "reaction", "name": "v1", "fn": fl.ref(fl.pl1), "args": ["k1", "x", "a"], "stoich": {"x": -1, "y": 1}})
+        comps.append({"kind": "reaction", "name": "v1", "fn": fl.ref(fl.pl1), "args": ["k1d" if derived_k1 else "k1", "x", "a"], "stoich": {"x": -1, "y": 1}})
     comps.append({"kind": "reaction", "name": "v2", "fn": fl.ref(fl.pl1), "args": ["k2", "y", "b"], "stoich": {"y": -1}})
     return {"spec": {"components": comps}, "params": p, "y0": y0, "inhib": inhib}
 
 
+def eff(p: dict) -> dict:
+    """Parameters as the formulas below use them: k1 is the constant v1 runs with; raw[q] is the value of the parameter that is
+    scanned, chain = d ln(k1 effective) / d ln(k1 scanned) (1 unless the constant is the derived parameter 0.7 k1 + 0.3)."""
+    if "raw" in p:
+        return p
+    raw = {k: v for k, v in p.items() if k != "dk1"}
+    if p.get("dk1"):
+        k1e = fl.lin1(p["k1"])
+        return {**raw, "k1": k1e, "raw": raw, "chain": 0.7 * p["k1"] / k1e}
+    return {**raw, "raw": raw, "chain": 1.0}
+
+
 def fluxes(p: dict, st: dict, inhib: bool) -> dict:
+    p = eff(p)
     v1 = p["k1"] * st["x"] ** p["a"] * (st["y"] ** p["ni"] if inhib else 1.0)
     return {"vin": p["kin"], "v1": v1, "v2": p["k2"] * st["y"] ** p["b"]}
 
 
 def var_elast(p: dict, st: dict, inhib: bool, normalized: bool) -> dict:
     """{variable: {flux: coefficient}}"""
+    p = eff(p)
     f = fluxes(p, st, inhib)
     e = {"x": {"vin": 0.0, "v1": p["a"], "v2": 0.0}, "y": {"vin": 0.0, "v1": p["ni"] if inhib else 0.0, "v2": p["b"]}}
     if normalized:
@@ -83,19 +102,21 @@ def var_elast(p: dict, st: dict, inhib: bool, normalized: bool) -> dict:
 
 
 def par_elast(p: dict, st: dict, inhib: bool, normalized: bool) -> dict:
+    p = eff(p)
     f = fluxes(p, st, inhib)
     e = {
-        "kin": {"vin": 1.0, "v1": 0.0, "v2": 0.0}, "k1": {"vin": 0.0, "v1": 1.0, "v2": 0.0}, "k2": {"vin": 0.0, "v1": 0.0, "v2": 1.0},
+        "kin": {"vin": 1.0, "v1": 0.0, "v2": 0.0}, "k1": {"vin": 0.0, "v1": p["chain"], "v2": 0.0}, "k2": {"vin": 0.0, "v1": 0.0, "v2": 1.0},
         "a": {"vin": 0.0, "v1": p["a"] * math.log(st["x"]), "v2": 0.0}, "b": {"vin": 0.0, "v1": 0.0, "v2": p["b"] * math.log(st["y"])},
     }
     if inhib:
         e["ni"] = {"vin": 0.0, "v1": p["ni"] * math.log(st["y"]), "v2": 0.0}  # a parameter with a negative value
     if normalized:
         return e
-    return {q: {r: e[q][r] * f[r] / p[q] for r in f} for q in e}
+    return {q: {r: e[q][r] * f[r] / p["raw"][q] for r in f} for q in e}
 
 
 def steady(p: dict, inhib: bool) -> dict:
+    p = eff(p)
     y = (p["kin"] / p["k2"]) ** (1 / p["b"])
     x = (p["kin"] * (y if inhib else 1.0) / p["k1"]) ** (1 / p["a"])
     return {"x": x, "y": y}
@@ -103,17 +124,18 @@ def steady(p: dict, inhib: bool) -> dict:
 
 def response(p: dict, inhib: bool, normalized: bool) -> tuple[dict, dict]:
     """Scaled: d ln x*/d ln q.  ({param: {var: R}}, {param: {flux: R}})"""
+    p = eff(p)
     a, b = p["a"], p["b"]
     ry = {"kin": 1 / b, "k2": -1 / b, "k1": 0.0}
     i = 1.0 if inhib else 0.0
-    rx = {"kin": (1 + i * ry["kin"]) / a, "k2": (i * ry["k2"]) / a, "k1": -1 / a}
+    rx = {"kin": (1 + i * ry["kin"]) / a, "k2": (i * ry["k2"]) / a, "k1": -p["chain"] / a}
     rv = {q: {"x": rx[q], "y": ry[q]} for q in ("kin", "k1", "k2")}
     rf = {q: {r: (1.0 if q == "kin" else 0.0) for r in ("vin", "v1", "v2")} for q in ("kin", "k1", "k2")}
     if normalized:
         return rv, rf
     ss = steady(p, inhib)
     f = fluxes(p, ss, inhib)
-    return ({q: {v: rv[q][v] * ss[v] / p[q] for v in ss} for q in rv}, {q: {r: rf[q][r] * f[r] / p[q] for r in f} for q in rf})
+    return ({q: {v: rv[q][v] * ss[v] / p["raw"][q] for v in ss} for q in rv}, {q: {r: rf[q][r] * f[r] / p["raw"][q] for r in f} for q in rf})
 
 
 def gen_moiety(rng) -> dict:  # noqa: ANN001
@@ -173,7 +195,7 @@ def run_case(case: dict) -> dict:
     model = rm.build(net["spec"])
     p, inhib = net["params"], net.get("inhib", False)
     viols: list[dict] = []
-    counters: dict[str, int] = {f"part:{case['part']}": 1, "parameter_with_negative_value_scanned": int(case["part"] == "elasticities" and net.get("inhib", False)), "default_state_defined_by_an_initial_assignment_on_scanned_parameters": int(ia_start)}
+    counters: dict[str, int] = {f"part:{case['part']}": 1, "scanned_parameter_feeds_a_derived_parameter": int(bool(net["params"].get("dk1"))), "parameter_with_negative_value_scanned": int(case["part"] == "elasticities" and net.get("inhib", False)), "default_state_defined_by_an_initial_assignment_on_scanned_parameters": int(ia_start)}
     ctx = {"params": p, "y0": net["y0"], "inhibition": inhib}
     before = snapshot(model)
 
@@ -234,7 +256,7 @@ def run_case(case: dict) -> dict:
             viols += cmp_table(rc.variables, rv, 2e-2, "concentration response coefficient differs from the analytic steady-state sensitivity", {"normalized": normalized, "mode": mode, **ctx})
             viols += cmp_table(rc.fluxes, rf, 2e-2, "flux response coefficient differs from the analytic steady-state sensitivity", {"normalized": normalized, "mode": mode, **ctx})
             counters[f"response:{mode}"] = 1
-        if not moiety and rng.random() < 0.4:
+        if not moiety and not p.get("dk1") and rng.random() < 0.4:
             # a structurally different network with the same parameter names, values and initial values, analysed in the same
             # process right afterwards: v2 consumes two y. Its (unscaled) coefficients are its own.
             spec_b = copy.deepcopy(net["spec"])
